@@ -53,6 +53,26 @@ def handle (op : String) (j : Json) : Except String Json := do
     | some x, some y => some ((x.zip y).map (fun p => [p.1, p.2]))
     | _, _ => none
   match op with
+  | "mem_pair" =>
+    -- several genomes, one after the other, same in-memory data: pull-all `iter_chromosomes`, and the mask
+    -- through the computation graph (name stream first)
+    let gs ← getArr j "gs"
+    let res ← gs.mapM (fun g => do
+      let inc ← getNatList g "included"
+      let po ← getNatList g "plainOrder"
+      let ig ← getNatList g "ignored"
+      let ord := if Gen.C12.orderSkipsUnderscore then po else inc
+      let mk := fun (gs : List Group) =>
+        if Gen.C12.iterLookahead then M.lookIter (IterSt.init ord inc ig gs) .fresh else M.iter (IterSt.init ord inc ig gs)
+      let n := inc.length
+      let mIter := pullAll M.pull fuel (mk g0)
+      let mMask := (zipAll fuel [blanks n, mk g0, blanks n]).map (fun rows =>
+        let col := rows.map (fun r => r.getD 1 [])
+        col ++ List.replicate (n - col.length) [])
+      let sp := specSync inc ig g0
+      pure (Json.arr #[optJ outJ mIter, optJ outJ mMask], Json.arr #[optJ outJ sp, optJ outJ sp]))
+    pure (reply (Json.mkObj [("res", Json.arr (res.map (·.1)).toArray)])
+      (some (Json.mkObj [("res", Json.arr (res.map (·.2)).toArray)])))
   | "iter" =>
     pure (reply (optJ outJ (pullAll M.pull fuel (mkIter g0))) (some (optJ outJ (specSync included ignored g0))))
   | "genome_compute" =>
